@@ -358,7 +358,7 @@ def build_harness(bins, timeout=3000):
     args = ["cargo", "build", "--offline"]
     for b in bins:
         args += ["--bin", b]
-    rc, out = sh(args, cwd=HARNESS, timeout=timeout)
+    rc, out = sh(args, cwd=HARNESS, timeout=timeout, env={"CARGO_TARGET_DIR": TARGET})
     return rc == 0, out
 
 
